@@ -96,6 +96,9 @@ func (p property) isAccessorDescriptor() bool {
 }
 
 func (p property) isDataDescriptor() bool {
+	if _, isAccessor := p.value.(propertyGetSet); isAccessor {
+		return false
+	}
 	if p.writeSet() { // Either "On" or "Off"
 		return true
 	}
